@@ -8,7 +8,7 @@
    these predicates for every production of the grammar, with no bound on sizes or counts.
    [vol_ok vb] says the same for a whole volume (parse at polarity unset or 0xFF, assemble with any
    incoming FFS3 flag). *)
-From Fiano Require Import Base.Bytes Model.Ffs Model.FfsSpec Proofs.FfsSaveProofs.
+From Fiano Require Import Base.Bytes Model.Ffs Model.FfsSpec Model.FfsGrammar Proofs.FfsSaveProofs Proofs.FfsGrammarProofs.
 Open Scope Z_scope.
 
 Section C01.
@@ -106,6 +106,21 @@ Theorem C01_save_identity_region : forall l trail,
     save_region dec enc u2s s2u nvar d (region_bytes l trail) = Ok (region_bytes l trail).
 Proof. exact (region_save_identity dec enc u2s s2u nvar). Qed.
 
+(* THE statement of C01 for bare BIOS regions and single volumes: for every value of the
+   reference grammar datatype (Model/FfsGrammar.v: sections, files, volumes nested to any depth,
+   regions) that satisfies the grammar's side conditions, Parse followed by Save returns exactly
+   the serialised bytes. *)
+Theorem C01_save_identity : forall l trail, wf_region u2s s2u l trail ->
+  exists d0, forall d, (d0 <= d)%nat ->
+    save_region dec enc u2s s2u nvar d (emit_region l trail) = Ok (emit_region l trail).
+Proof. exact (grammar_save_identity dec enc u2s s2u nvar). Qed.
+
+(* the side conditions are decidable; the correspondence run evaluates [wfb_region] on every
+   generated image (op [grammar]) to establish that the image lies in this theorem's domain *)
+Theorem C01_wf_decidable : forall l trail,
+  wfb_region u2s s2u l trail = true -> wf_region u2s s2u l trail.
+Proof. exact (wfb_region_sound u2s s2u). Qed.
+
 End C01.
 
 (* the scan hypotheses of C01_save_identity_region, from checkable conditions: 8-aligned padding,
@@ -130,6 +145,8 @@ Print Assumptions C01_file_sections.
 Print Assumptions C01_volume.
 Print Assumptions C01_section_fv_image.
 Print Assumptions C01_save_identity_region.
+Print Assumptions C01_save_identity.
+Print Assumptions C01_wf_decidable.
 Print Assumptions C01_scan_pair.
 Print Assumptions C01_scan_trail.
 
@@ -175,3 +192,17 @@ Example ex_region_scan :
   sub 40 4 ex_vol = FVH /\ files_aligned 72 [ex_file; ex_padfile] = true /\
   scan_clear (Z.to_nat (24 / 8) + 1) (zrepeat 205 24) 32 = true.
 Proof. vm_compute. repeat split; reflexivity. Qed.
+
+(* the same region as a value of the grammar datatype: it is well-formed (decided by computation)
+   and its serialisation is the byte string above *)
+Definition ex_gfile : fspec :=
+  FSecs (zrepeat 17 16) 7 72 248
+    [ SLeaf 16 [77; 90; 1; 2; 3]; SUi [65; 0; 66; 0; 0; 0];
+      SDepex 19 [(2, Some (zrepeat 7 16)); (6, None)]; SLeaf 25 [] ].
+Definition ex_gvol : vspec :=
+  VSpec (zrepeat 0 16) FFS2 327423 0 2 4 64
+        [ex_gfile; FOpaque (zrepeat 255 16) 9 170 240 0 248 (zrepeat 255 8)] 40.
+Example ex_grammar_wf :
+  wfb_region ex_u2s ex_s2u [(zrepeat 171 16, ex_gvol)] (zrepeat 205 24) = true /\
+  bytes_eqb (emit_region [(zrepeat 171 16, ex_gvol)] (zrepeat 205 24)) ex_region = true.
+Proof. vm_compute. split; reflexivity. Qed.
